@@ -651,11 +651,44 @@ func returnMayBeSuccess(r *ssa.Return) bool {
 			if c, ok := boolConst(v); ok && !c {
 				return false
 			}
+			if alwaysFalseResult(v) {
+				return false
+			}
 		}
 		if isErrorType(v.Type()) {
 			if errNonNilAt(v, r.Block()) {
 				return false
 			}
+		}
+	}
+	return true
+}
+
+// alwaysFalseResult: v is the i-th result of a static call to a repository function all of whose returns yield the
+// constant false there (failure helpers such as helpers.LogAndReturnFalse).
+func alwaysFalseResult(v ssa.Value) bool {
+	ex, ok := v.(*ssa.Extract)
+	if !ok {
+		return false
+	}
+	c, ok := ex.Tuple.(*ssa.Call)
+	if !ok {
+		return false
+	}
+	sc := c.Call.StaticCallee()
+	if sc == nil || sc.Blocks == nil {
+		return false
+	}
+	rets := returnsOf(sc)
+	if len(rets) == 0 {
+		return false
+	}
+	for _, ret := range rets {
+		if ex.Index >= len(ret.Results) {
+			return false
+		}
+		if k, isC := boolConst(ret.Results[ex.Index]); !isC || k {
+			return false
 		}
 	}
 	return true
